@@ -1,7 +1,7 @@
 """C05 - a crash at any point recovers to a consistent committed prefix (R5.1-R5.4, R1.7)."""
 from ..facts import Program, Inconclusive, op_place
 from ..flow import Ev, walk, resolve_upvars, show, strip
-from ..util import calls, field_stores, ok_return_blocks, must_pass, follow_copies
+from ..util import calls, field_stores, ok_return_blocks, must_pass, follow_copies, receiver_call_sites
 from . import c01
 
 SEG = "seglog::write::Writer::<H>::"
@@ -97,14 +97,9 @@ def run(chk, facts_dir, tier):
                     l = q["l"] if q and not q["p"] else None
                 hyd = False
                 for k in HYDRATES.values():
-                    for bi, t in calls(wn, k):
-                        rp = op_place(t["args"][0])
-                        # the receiver is &mut <local>
-                        recv = wev.operand(t["args"][0], (bi, "T"))
-                        if rp is not None and wn.dominates(bi, i):
-                            for d in wn.defs.get(rp["l"], []):
-                                if d[3]["k"] == "ref" and d[3]["place"]["l"] == l:
-                                    hyd = True
+                    for bi, rl, _line in receiver_call_sites(prog, wn, k):
+                        if rl == l and wn.dominates(bi, i):
+                            hyd = True
                 if hyd:
                     okh += 1
                     chk.ok("R5.3", "LiveIndexSet.%s was hydrated before publication" % fname, wn.where(s["line"]))
